@@ -28,6 +28,10 @@ fn records() -> Vec<Rec> {
         Rec { a1: 0.0, a2: 0.0, b: 0.035, c1: 0.32, c2: 0.225, c3: 0.225, c4: 0.065 },
         Rec { a1: -0.1, a2: 0.1, b: -0.05, c1: 1.0, c2: 2.0, c3: 0.17, c4: 0.1208 },
         Rec { a1: 0.72, a2: -0.225, b: 0.1, c1: 0.6, c2: 1.075, c3: 1.28, c4: 0.0 },
+        // exact relations between parameters that share a joint origin: b == c2 and c3 == -a2; b == -c2 and c3 == a2; all equal
+        Rec { a1: 0.1, a2: -0.25, b: 0.3, c1: 0.4, c2: 0.3, c3: 0.25, c4: 0.09 },
+        Rec { a1: 0.1, a2: 0.25, b: -0.3, c1: 0.4, c2: 0.3, c3: 0.25, c4: 0.09 },
+        Rec { a1: 0.2, a2: -0.2, b: 0.2, c1: 0.2, c2: 0.2, c3: 0.2, c4: 0.2 },
     ]
 }
 
